@@ -7,7 +7,7 @@ package main
 //   ev <n> <event …>
 //   end <n> ok|watchdog
 //
-// Command: bc -family c07|c08|c12|c16|c20|all
+// Command: bc, families selected by BC_FAMILY=c07|c08|c12|c15|c16|c20|all (comma separated)
 
 import (
 	"fmt"
@@ -205,6 +205,87 @@ func famC20(c *hx.Ctx) []*scenario {
 			}
 		}
 		add(&scenario{name: "sub-token-turnover", ps: 2, tokenTO: 300 * time.Millisecond, steps: st})
+	}
+	// (round 5) flow control by tokens under a peer that stops reading for a while (the broker's writer is blocked, so no
+	// acknowledgement leaves and no token comes back) and then reads everything
+	// (a) requests pipelined beyond the tokens, the replies read, a pause longer than the token timeout, the same again: the
+	//     processor waits for a token in every round, never for long: every request is answered and the connection stays up
+	for _, kind := range []string{"sub", "unsub", "sub-unsub", "pub1", "all"} {
+		for n := 1; n <= 3; n++ {
+			const tt = 600 * time.Millisecond
+			st := []step{in(connectPkt(true, nil)), {kind: "settle"}}
+			id := 0
+			for round := 0; round < 2; round++ {
+				if round > 0 {
+					st = append(st, step{kind: "pause", wait: tt * 13 / 10})
+				}
+				st = append(st, step{kind: "stall"})
+				for i := 0; i < n+2; i++ {
+					id++
+					sub := in(&packet.Subscribe{ID: packet.ID(id), Subscriptions: []packet.Subscription{{Topic: fmt.Sprintf("f/%d", id), QOS: packet.QOS(id % 3)}}})
+					unsub := in(&packet.Unsubscribe{ID: packet.ID(id), Topics: []string{fmt.Sprintf("f/%d", id)}})
+					switch kind {
+					case "sub":
+						st = append(st, sub)
+					case "unsub":
+						st = append(st, unsub)
+					case "sub-unsub":
+						st = append(st, []step{sub, unsub}[i%2])
+					case "pub1":
+						st = append(st, in(pub(id, 1, false)))
+					case "all":
+						id++
+						st = append(st, []step{sub, unsub}[i%2], in(pub(id, 1, false)))
+					}
+				}
+				st = append(st, step{kind: "settle"}, step{kind: "unstall"}, step{kind: "settle"}, in(&packet.Pingreq{}))
+			}
+			add(&scenario{name: fmt.Sprintf("token-wait-after-idle-%s-n%d", kind, n), pp: n, ps: n, tokenTO: tt, noSettle: true, expectServed: true, steps: st})
+		}
+	}
+	// (b) s QoS 2 publishes received by an earlier connection and not released; on the resumed connection, while the peer does
+	//     not read: their PUBRELs, as many QoS 1 publishes as there are publish tokens and as many SUBSCRIBE / UNSUBSCRIBE as
+	//     there are subscribe tokens — more acknowledgements than the acknowledgement queue has places; then the peer reads:
+	//     every request has its response
+	for s := 2; s <= 3; s++ {
+		for _, n := range []int{s, s + 1, 0} { // 0: nothing configured (10 + 10 tokens)
+			for _, order := range []string{"rel-first", "rel-last", "rel-between"} {
+				if n == 0 && order != "rel-first" {
+					continue
+				}
+				st := []step{in(connectPkt(false, nil))}
+				for i := 1; i <= s; i++ {
+					st = append(st, in(pub(i, 2, false)))
+				}
+				st = append(st, step{kind: "settle"}, step{kind: "inerr"}, step{kind: "reconnect", resumed: true}, in(connectPkt(false, nil)), step{kind: "settle"}, step{kind: "stall"})
+				var rels, pubs, subs []step
+				for i := 1; i <= s; i++ {
+					rels = append(rels, in(&packet.Pubrel{ID: packet.ID(i)}))
+				}
+				tokens := n
+				if n == 0 {
+					tokens = 10
+				}
+				for i := 0; i < tokens; i++ {
+					pubs = append(pubs, in(pub(100+i, 1, false)))
+					if i%2 == 0 {
+						subs = append(subs, in(&packet.Subscribe{ID: packet.ID(200 + i), Subscriptions: []packet.Subscription{{Topic: fmt.Sprintf("g/%d", i), QOS: 1}}}))
+					} else {
+						subs = append(subs, in(&packet.Unsubscribe{ID: packet.ID(200 + i), Topics: []string{fmt.Sprintf("g/%d", i)}}))
+					}
+				}
+				switch order {
+				case "rel-first":
+					st = append(append(append(st, rels...), pubs...), subs...)
+				case "rel-last":
+					st = append(append(append(st, subs...), pubs...), rels...)
+				case "rel-between":
+					st = append(append(append(st, pubs...), rels...), subs...)
+				}
+				st = append(st, step{kind: "settle"}, step{kind: "unstall"}, step{kind: "settle"}, in(&packet.Pingreq{}))
+				add(&scenario{name: fmt.Sprintf("acks-beyond-queue-s%d-n%d-%s", s, n, order), pp: n, ps: n, defaults: n == 0, noSettle: true, expectServed: true, steps: st})
+			}
+		}
 	}
 	// backend call failures
 	for _, k := range []string{"sub", "unsub", "pub"} {
@@ -619,6 +700,37 @@ func famC16(c *hx.Ctx) []*scenario {
 		steps = append(steps, step{kind: "react", name: "immediate"}, step{kind: "drain"})
 		add(&scenario{name: fmt.Sprintf("long-w%d-n%d-%s", x.w, x.n, x.react), w: x.w, react: x.react, steps: steps, expectDrained: true})
 	}
+	// (round 5) the backend hands over a message it has already removed from its queue while the connection is dying: the
+	// return of Dequeue is held at a gate, the connection is ended (read error, Close from outside, DISCONNECT, a packet the
+	// broker must refuse), then the gate is opened.  With 0..w-1 deliveries unacknowledged, QoS 1 and 2, persistent session;
+	// the session is resumed afterwards by a peer that acknowledges everything
+	for w := 1; w <= 3; w++ {
+		for k := 0; k < w; k++ {
+			for q := 1; q <= 2; q++ {
+				for _, cause := range []string{"inerr", "close", "disconnect", "unexpected"} {
+					st := []step{in(connectPkt(false, nil))}
+					for i := 0; i < k; i++ {
+						st = append(st, step{kind: "deq", msg: msg(i, 1+i%2)})
+					}
+					st = append(st, step{kind: "deqhold"}, step{kind: "deq", msg: msg(20, q)})
+					switch cause {
+					case "inerr":
+						st = append(st, step{kind: "inerr"})
+					case "close":
+						st = append(st, step{kind: "close"})
+					case "disconnect":
+						st = append(st, in(&packet.Disconnect{}))
+					case "unexpected":
+						st = append(st, in(packet.NewConnack()))
+					}
+					st = append(st, step{kind: "settle"}, step{kind: "deqrelease"}, step{kind: "settle"},
+						step{kind: "reconnect", resumed: true}, in(connectPkt(false, nil)), step{kind: "react", name: "immediate"}, step{kind: "drain"},
+						step{kind: "deq", msg: msg(30, q)}, step{kind: "drain"})
+					add(&scenario{name: fmt.Sprintf("w%d-dequeued-while-dying-k%d-q%d-%s", w, k, q, cause), w: w, react: "none", steps: st})
+				}
+			}
+		}
+	}
 	// dequeue token timeout: nothing acknowledged, window full
 	add(&scenario{name: "deq-token-timeout", w: 1, tokenTO: 20 * time.Millisecond, steps: []step{in(connectPkt(false, nil)), {kind: "deq", msg: msg(1, 1)},
 		{kind: "deq", msg: msg(2, 1)}, {kind: "settle"}}})
@@ -728,6 +840,136 @@ func famC12(c *hx.Ctx) []*scenario {
 	return out
 }
 
+// a session resumed with more stored outgoing packets than the new connection has window slots: everything the session lists
+// is re-sent, in listing order, before anything new
+func famC15(c *hx.Ctx) []*scenario {
+	var out []*scenario
+	add := func(sc *scenario) { sc.family = "c15"; out = append(out, sc) }
+	drop := func(w int) []step {
+		return []step{{kind: "inerr"}, {kind: "reconnect", resumed: true, w: w}, in(connectPkt(false, nil))}
+	}
+	type stored struct {
+		id, qos int
+		rel     bool // the delivery had reached the PUBREL state at the cut
+	}
+	// the resumed peer completes every stored delivery, in the order of the listing.  The dequeuer of a connection whose
+	// window the retransmissions have used up is waiting for a slot: the first completed handshake is left to settle (the
+	// dequeuer takes that slot and goes to wait for a message) before the others follow — otherwise "slot taken" and "slot
+	// returned into a full window and dropped" would race, and the recorded order would not tell which happened
+	complete := func(l []stored) []step {
+		var st []step
+		for i, x := range l {
+			switch {
+			case x.qos == 1:
+				st = append(st, in(&packet.Puback{ID: packet.ID(x.id)}))
+			case x.rel:
+				st = append(st, in(&packet.Pubcomp{ID: packet.ID(x.id)}))
+			default:
+				st = append(st, in(&packet.Pubrec{ID: packet.ID(x.id)}), in(&packet.Pubcomp{ID: packet.ID(x.id)}))
+			}
+			if i == 0 {
+				st = append(st, step{kind: "settle"})
+			}
+		}
+		return st
+	}
+	// then two newer messages are queued and acknowledged as they come, the connection is cut once more and resumed with
+	// window w3: whatever was left behind shows up now
+	tail := func(w3 int) []step {
+		st := []step{{kind: "react", name: "immediate"}, {kind: "deq", msg: msg(50, 1)}, {kind: "deq", msg: msg(51, 2)}, {kind: "drain"}}
+		st = append(st, drop(w3)...)
+		return append(st, step{kind: "drain"})
+	}
+	// (a) the window is lowered between two connections (the backend configures it per connection): n deliveries
+	//     unacknowledged (QoS 1, QoS 2, mixed, the first r of the QoS 2 ones driven to the PUBREL state), resumed with window w2 < n
+	for w2 := 1; w2 <= 3; w2++ {
+		for n := w2 + 1; n <= w2+3; n++ {
+			for _, qs := range []string{"q1", "q2", "mixed"} {
+				for _, r := range []int{0, 1, n} {
+					if r > 0 && qs == "q1" {
+						continue
+					}
+					st := []step{in(connectPkt(false, nil))}
+					var l []stored
+					for i := 1; i <= n; i++ {
+						q := map[string]int{"q1": 1, "q2": 2, "mixed": 1 + i%2}[qs]
+						l = append(l, stored{id: i, qos: q}) // the session numbers its packets 1, 2, 3, …
+						st = append(st, step{kind: "deq", msg: msg(i, q)})
+					}
+					k := 0
+					for i := range l {
+						if l[i].qos == 2 && k < r {
+							k++
+							l[i].rel = true
+							st = append(st, in(&packet.Pubrec{ID: packet.ID(l[i].id)}))
+						}
+					}
+					st = append(st, drop(w2)...)
+					st = append(st, complete(l)...)
+					st = append(st, tail(n)...)
+					add(&scenario{name: fmt.Sprintf("window-lowered-n%d-w%d-%s-r%d", n, w2, qs, r), w: n, react: "none", steps: st, expectDrained: true})
+				}
+			}
+		}
+	}
+	// (b) constant window; the peer acknowledges a delivery twice, or acknowledges ids that were never used: every such
+	//     acknowledgement hands the dequeuer a window slot, so that more than w deliveries are unacknowledged at the cut
+	for w := 2; w <= 3; w++ {
+		for surplus := 1; surplus <= 3; surplus++ {
+			for _, how := range []string{"puback-twice", "puback-unknown", "pubcomp-unknown", "mixed"} {
+				st := []step{in(connectPkt(false, nil))}
+				var l []stored
+				deq := func(k int) {
+					for i := 0; i < k; i++ {
+						id := len(l) + 1
+						q := 1 + (id/2)%2 // QoS 1, 2, 2, 1, 1, 2, …
+						l = append(l, stored{id: id, qos: q})
+						st = append(st, step{kind: "deq", msg: msg(id, q)})
+					}
+				}
+				deq(w) // ids 1..w, the window is full; id 1 is a QoS 1 delivery
+				left := surplus
+				first := true
+				firstAcked := false
+				for left > 0 {
+					// stray acknowledgements while the window is full: as many slots, as many further deliveries
+					k := 2
+					if left == 1 && !(first && (how == "puback-twice" || how == "mixed")) {
+						k = 1
+					}
+					for j := 0; j < k; j++ {
+						switch {
+						case how == "puback-twice" || (how == "mixed" && first):
+							st = append(st, in(&packet.Puback{ID: 1})) // the first one is due, every further one is not
+							firstAcked = true
+						case how == "puback-unknown":
+							st = append(st, in(&packet.Puback{ID: packet.ID(5000 + j)}))
+						default:
+							st = append(st, in(&packet.Pubcomp{ID: packet.ID(6000 + j)}))
+						}
+					}
+					deq(k)
+					if first && (how == "puback-twice" || how == "mixed") {
+						left-- // one of the two was the due acknowledgement of id 1
+					} else {
+						left -= k
+					}
+					first = false
+				}
+				if firstAcked {
+					l = l[1:]
+				}
+				st = append(st, step{kind: "settle"})
+				st = append(st, drop(0)...)
+				st = append(st, complete(l)...)
+				st = append(st, tail(0)...)
+				add(&scenario{name: fmt.Sprintf("stray-acks-w%d-surplus%d-%s", w, surplus, how), w: w, react: "none", steps: st, expectDrained: true})
+			}
+		}
+	}
+	return out
+}
+
 // ------------------------------------------------------------------ runner
 
 func runBC(c *hx.Ctx) {
@@ -761,6 +1003,9 @@ func runBC(c *hx.Ctx) {
 		}
 		if want("c12") {
 			scs = append(scs, famC12(c)...)
+		}
+		if want("c15") {
+			scs = append(scs, famC15(c)...)
 		}
 	}
 	results := make([]*result, len(scs))
@@ -825,7 +1070,7 @@ func replayScenarios(c *hx.Ctx) []*scenario {
 	// every check runs one family, which then is the only consumer of the PRNG: regenerate each family from a fresh PRNG
 	// with the run's seed, so that the randomly composed scenarios (c16 mixes, c20 packet ids) come out as they were
 	var all []*scenario
-	for _, fam := range []func(*hx.Ctx) []*scenario{famC20, famC07, famC08, famC16, famC12} {
+	for _, fam := range []func(*hx.Ctx) []*scenario{famC20, famC07, famC08, famC16, famC12, famC15} {
 		c.Rng = rand.New(rand.NewSource(c.Seed))
 		all = append(all, fam(c)...)
 	}
